@@ -74,5 +74,9 @@ func MergeLeftToRight(t Tuple, ts ...Tuple) Tuple {
 			t = t.With(name, value)
 		}
 	}
+	// The merge may have produced (@: i, @char: c) and the like.
+	if g, is := t.(*GenericTuple); is {
+		return g.Canonical()
+	}
 	return t
 }
